@@ -280,7 +280,7 @@ def run(c):
     # (1b) large universe: depth-bounded BFS and sampled deep histories (lines carry their expected tree)
     if th:
         os.remove(histories(c, U31, VA, "u31-d3", maxops=3))
-        os.remove(histories(c, U31, [(1, True), (33, False)], "u31-deep", maxops=14, sample=48, fulldepth=1))
+        os.remove(histories(c, U31, [(1, True), (33, False)], "u31-deep", maxops=16, sample=44, fulldepth=1))
     else:
         os.remove(histories(c, U31, VA, "u31-d2", maxops=2))
     # (2) partially loaded trie
@@ -311,7 +311,7 @@ def run(c):
         rangeproofs(c, hashed_universe(UR6[:5])[0], [(33, False)], "r5s")
     # every TLC run above is a completed breadth-first search of its (possibly depth-bounded) model; the parts that are
     # NOT an exhaustive enumeration of their universe are named here
-    c.extra["not_exhaustive_parts"] = (["u31-deep: a pseudo-random 1/48 of the transitions beyond depth 1, histories up to 14 operations (Keep)"] if th else []) + [
+    c.extra["not_exhaustive_parts"] = (["u31-deep: a pseudo-random 1/44 of the transitions beyond depth 1, histories up to 16 operations (Keep)"] if th else []) + [
         "u31-d%d: histories up to %d operations only" % ((3, 3) if th else (2, 2)),
         "MC_Cache / MC_Db: histories up to MaxOps operations", "tv*: seeded random histories (trace validation)"]
     c.exhaustive = True
